@@ -24,6 +24,7 @@ from liquid2.ast import PartialScope
 from liquid2.builtin import Identifier
 from liquid2.builtin import StringLiteral
 from liquid2.builtin import parse_string_or_identifier
+from liquid2.builtin import quote_identifier
 from liquid2.exceptions import LiquidSyntaxError
 from liquid2.exceptions import RequiredBlockError
 from liquid2.exceptions import StopRender
@@ -163,9 +164,9 @@ class BlockNode(Node):
         assert isinstance(self.token, TagToken)
         required = " required" if self.required else ""
         return (
-            f"{{%{self.token.wc[0]} block {self.name}{required} {self.token.wc[1]}%}}"
+            f"{{%{self.token.wc[0]} block {quote_identifier(self.name)}{required} {self.token.wc[1]}%}}"
             f"{self.block}"
-            f"{{%{self.end_tag_token.wc[0]} endblock {self.name} "
+            f"{{%{self.end_tag_token.wc[0]} endblock {quote_identifier(self.name)} "
             f"{self.end_tag_token.wc[1]}%}}"
         )
 
